@@ -74,7 +74,8 @@ Definition same_kind (b b':behavior) : Prop :=
 
 (* what frame::next keeps of the scope it works on *)
 Definition same_scope_id (f f1:frame) : Prop :=
-  f_ns f1 = f_ns f /\ f_base f1 = f_base f /\ f_bubble f1 = f_bubble f /\ f_scope f1 = f_scope f.
+  f_ns f1 = f_ns f /\ f_base f1 = f_base f /\ f_bubble f1 = f_bubble f /\
+  (f_scope f1 = f_scope f \/ f_scope f1 = ""%string).     (* a frame that starts over (a loop going round) is a new scope without a name *)
 Definition vars_kept_or_fresh (f f1:frame) : Prop :=
   f_vars f1 = f_vars f \/
   exists b0 b1, f_exit f = Some b0 /\ same_kind b0 b1 /\ fresh_scope b1 (f_vars f1).
